@@ -71,8 +71,10 @@ def generate(rng, tier):
         v2["port"] = svcs[victim]["port"] + 1
         t_upd = round(max(t_ready, t_w - rng.choice([0.05, 0.3, 1.0, 2.5])), 6)
         if t_upd < t_w:
-            ops.append({"t": t_upd, "op": "update", "h": "R", "svc": v2})
-            stale = rng.random() < 0.7
+            # ... or keep one object, change it in place and call update with it again
+            inplace = rng.random() < 0.4
+            ops.append({"t": t_upd, "op": "update", "h": "R", "svc": v2, "mutate": inplace})
+            stale = not inplace and rng.random() < 0.7
     if mode == "close":
         ops.append({"t": t_w, "op": "close", "h": "R"})
     else:
@@ -258,7 +260,12 @@ def _oracle(w, drv, sc, out):
                     # probes of a re-registration carry the proposed PTR in the authority section
                     continue
                 for r in tx.msg.records():
-                    if r.ttl > 0 and r.ident() in must_ids:
+                    # "those records" are the service's records, whatever version of them a queued answer was built
+                    # from: everything under the instance name, and every pointer to it
+                    nm = s["name"].lower()
+                    by_name = (r.type in (wire.T_SRV, wire.T_TXT) and r.name.lower() == nm) or \
+                              (r.type == wire.T_PTR and isinstance(r.rdata, str) and r.rdata.lower() == nm)
+                    if r.ttl > 0 and (r.ident() in must_ids or by_name):
                         queued = _was_queued_before(w, wd["t"], tx)
                         out.add("C08.positive-after-goodbye",
                                 f"{s['name']}: {r!r} sent {'multicast' if tx.multicast else 'unicast'} at "
